@@ -89,7 +89,7 @@ def gen(tier, rng):
                                                     api="typed" if typed else "dyn", log=("dst",), chk=chk, g=g, sent=sent))
     # thorough: seeded random calls through random container pairs
     if tier != "quick":
-        for i in range(6000):
+        for i in range(30000):
             kw = rz.random_resize_kw(rng)
             typed = rng.random() < 0.5
             slay, dlay = rng.choice(TYPED_PAIRS if typed else DYN_PAIRS)
